@@ -17,15 +17,16 @@ func isAbort(r interface{}) bool { return simsync.IsAbort(r) }
 
 // Call is a descriptor: executing it builds fresh arguments every time.
 type Call struct {
-	Entry string `json:"e"`
-	Type  int    `json:"t,omitempty"` // static type index, or 1000+i for dynamic type i
-	Val   int    `json:"v,omitempty"`
-	Tag   string `json:"tag,omitempty"`
-	Rule  int    `json:"r,omitempty"`
-	Fn    int    `json:"f,omitempty"`
-	Shape int    `json:"s,omitempty"`       // 0 pointer, 1 value, 2 slice of pointers, 3 map of pointers, 4 array of values, 5 typed nil pointer, 6 nil
-	Keep  bool   `json:"keep_rm,omitempty"` // the rule map is ONE object per client, edited in place from call to call (as a package-level RM would be), not built afresh
-	U     string `json:"u,omitempty"`       // histories with global registrations: the suffix that makes this history's rule names unique in the process
+	Entry  string `json:"e"`
+	Type   int    `json:"t,omitempty"` // static type index, or 1000+i for dynamic type i
+	Val    int    `json:"v,omitempty"`
+	Tag    string `json:"tag,omitempty"`
+	Rule   int    `json:"r,omitempty"`
+	Fn     int    `json:"f,omitempty"`
+	Shape  int    `json:"s,omitempty"`       // 0 pointer, 1 value, 2 slice of pointers, 3 map of pointers, 4 array of values, 5 typed nil pointer, 6 nil
+	Keep   bool   `json:"keep_rm,omitempty"` // the rule map is ONE object per client, edited in place from call to call (as a package-level RM would be), not built afresh
+	TagSeq bool   `json:"tag_seq,omitempty"` // repeated calls (Plan.Repeat): the tag name gets the iteration number appended - a tag name nobody has used before, every time
+	U      string `json:"u,omitempty"`       // histories with global registrations: the suffix that makes this history's rule names unique in the process
 }
 
 const (
@@ -59,7 +60,53 @@ const (
 	EEscape   = "StrEscape"
 	ETimeFmt  = "GetTimeFmt"
 	EParseKV  = "ParseValidNameKV"
+	// EHelper: the exported helpers the documentation recommends for custom validation functions (GetJoinValidErrStr with
+	// and without trailing texts, GetJoinFieldErr, CheckFieldIsStr, ToStr, JoinTag2Val) and built-in rule functions called
+	// directly with a builder of the caller's own.
+	EHelper = "exported helper"
 )
+
+const NHelpers = 14
+
+func (c Call) helper() (s string) {
+	var b strings.Builder
+	switch c.Val % NHelpers {
+	case 0:
+		return valid.GetJoinValidErrStr("Obj", "Field", "in")
+	case 1:
+		return valid.GetJoinValidErrStr("Obj", "", "in", "x")
+	case 2:
+		return valid.GetJoinValidErrStr("", "Field", "in", "说明: a", "b")
+	case 3:
+		return valid.GetJoinValidErrStr("", "", "")
+	case 4:
+		return valid.GetJoinFieldErr("Obj", "Field", "text")
+	case 5:
+		return valid.GetJoinFieldErr("", "", fmt.Errorf("an error"))
+	case 6:
+		return valid.GetJoinFieldErr("Obj", "Field", 42)
+	case 7:
+		if err := valid.CheckFieldIsStr("Obj", "Field", reflect.ValueOf(7)); err != nil {
+			return err.Error()
+		}
+		return ""
+	case 8:
+		return valid.ToStr(int8(-3)) + valid.ToStr(2.50) + valid.ToStr([]byte("bytes")) + valid.ToStr(nil) + valid.ToStr(struct{ A int }{1}) + valid.ToStr(true)
+	case 9:
+		return valid.JoinTag2Val("to", "1~3", "msg") + valid.JoinTag2Val("required")
+	case 10:
+		valid.To(&b, "to=1~3", "Obj", "Field", reflect.ValueOf("abcdef"))
+	case 11:
+		valid.Le(&b, "le=2|too long", "Obj", "Field", reflect.ValueOf([]int{1, 2, 3}))
+	case 12:
+		valid.Phone(&b, "phone", "Obj", "Field", reflect.ValueOf("123"))
+		valid.In(&b, "in=(a/b)", "Obj", "Field", reflect.ValueOf("c"))
+	case 13:
+		valid.Datetime(&b, "datetime=(/, ,:)", "Obj", "Field", reflect.ValueOf("2024-01-02 10:00:00"))
+		valid.Unique(&b, "unique", "Obj", "Field", reflect.ValueOf([]string{"a", "a"}))
+	}
+	return b.String()
+}
 
 var escapeInputs = []string{"", "plain", "it's \"quoted\"\n", strings.Repeat("a'b\\", 30), strings.Repeat("long \"text\" ", 12), strings.Repeat("x", 129), strings.Repeat("'y'", 90), "tab\tand\x00nul\x1a"}
 
@@ -359,9 +406,10 @@ func (c Call) build() *args {
 			if c.Rule != 0 {
 				a.nest[&Item{}] = mkRule(c.Rule)
 				a.nest[&User{}] = mkRule(1 + c.Rule%3)
+				a.nest[&Plain{}] = mkRule(1 + (c.Rule+1)%3) // a type that carries no rule of its own
 				// one rule set per struct type: two keys of the same type would make
 				// the effective rule depend on Go's map iteration order
-				if tn := typeName(c.Type); c.Type < 1000 && tn != "Item" && tn != "User" {
+				if tn := typeName(c.Type); c.Type < 1000 && tn != "Item" && tn != "User" && tn != "Plain" {
 					a.nest[statics[c.Type%len(statics)].mk(0)] = mkRule(c.Rule)
 				}
 			}
@@ -595,6 +643,10 @@ func (c Call) Exec() (res Result) {
 		k, v, m := valid.ParseValidNameKV(a.str)
 		res.Handed = append(res.Handed, k, v, m)
 		res.Canon = "list:" + k + "\x1f" + v + "\x1f" + m
+	case EHelper:
+		s := c.helper()
+		res.Handed = append(res.Handed, s)
+		res.Canon = "str:" + s
 	case EDump:
 		s := valid.GetDumpStructStr(a.src)
 		res.Handed = append(res.Handed, s)
